@@ -40,6 +40,15 @@ def run(ctx):
         meta["sampled_histories_lrule_upto_5"] = len(hs5)
         specs += bc.specs_from("lrule", hs5, asserts=bc.WORLDS[:1])
         del hs5
+    # the complete automata (histories of any length): every state by a shortest history and every transition
+    closures = []
+    for which in ("arch", "lrule"):
+        cstates, ctrans, cr = bc.closure(which)
+        closures.append(cr)
+        meta[f"automaton_states_{which}"] = len(cstates)
+        meta[f"automaton_transitions_{which}"] = len(ctrans)
+        specs += bc.specs_from(which, cstates + ctrans, asserts=bc.WORLDS[:1])
+    mcs = mcs + closures
     for which, depth, num in (("arch", 9, 3000 if ctx.quick else 20000), ("lrule", 8, 500 if ctx.quick else 8000)):
         hs, _ = bc.simulate_histories(which, depth, num, seed=ctx.seed + 2)
         meta[f"simulated_{which}_depth_{depth}"] = len(hs)
@@ -63,7 +72,9 @@ def run(ctx):
                    "LayeredArchitecture its definition is observed and compared with Builders!ArchShow",
            "exhaustive": False,
            "exhaustive_part": f"all histories up to {n_arch} calls (LayeredArchitecture, 9-call vocabulary with two layer "
-                              f"names and two module names in str and list form) and up to {n_lrule} calls (LayerRule)",
+                              f"names and two module names in str and list form) and up to {n_lrule} calls (LayerRule); every "
+                              "state and every transition of the complete LayeredArchitecture and LayerRule automata "
+                              "(TLC with VIEW = automaton state: model-level invariants hold for histories of any length)",
            "samples": [episodes[len(episodes) // 3][:10]], **meta}
     return CheckResult(fails=fails, coverage=cov, assumptions=ASSUMPTIONS)
 
